@@ -379,9 +379,16 @@ impl DspRuntime for WasmDspRuntime {
                         if next_global_state.len() != state_patch_plan.total_size {
                             next_global_state.resize(state_patch_plan.total_size, 0);
                         }
+                        // The old module's state storage gets its size at the first dsp call;
+                        // before that it stands for all-zero state of the old layout.
+                        let mut old_data = old_data.clone();
+                        let old_size = old_skel.total_size() as usize;
+                        if old_data.len() < old_size {
+                            old_data.resize(old_size, 0);
+                        }
                         state_tree::patch::apply_patches(
                             next_global_state.as_mut_slice(),
-                            old_data,
+                            &old_data,
                             state_patch_plan.patches.as_slice(),
                         );
                     }
